@@ -278,7 +278,7 @@ struct Endpoint {
             if (room < (int32) k) { *consumed = k; return MATRIXSSL_REQUEST_RECV; } // datagram does not fit: dropped (legal for a datagram transport)
         }
         size_t n = std::min(k, (size_t) room);
-        memcpy(buf, d, n); *consumed = n;
+        if (n) memcpy(buf, d, n); *consumed = n;
         unsigned char *pt = nullptr; uint32 ptlen = 0; sel();
         int32 rc = matrixSslReceivedData(ssl, (uint32) n, &pt, &ptlen);
         return process_loop(rc, pt, ptlen);
